@@ -13,6 +13,7 @@ INFO = {
                    "data-dependent branch or operation, both of which change the DAG / path set. R04-3: the byte order of "
                    "serialize_proof_values, its decoder and the verifier's public-input order are mutually consistent.",
     "r04_4": "R04-4: the native proving entry points publish exactly serialize_proof_values(proof_values_from_witness(W)) of the witness they prove",
+    "r04_5": "R04-5 (shared with C20 R20-4): the circuit's outputs are computed from the witness's own inputs: each named input vector is placed whole at its declared offset under an exact length test, the evaluator dispatches to the same-named operators, the outputs are the declared output signals",
     "not_decided": "equality with positions 1..5 of the circuit witness (needs evaluating the witness graph: numeric)",
     "assumptions": ["poseidon_hash and arkworks Fp +,* are the functions of the specification (C09 covers the hash's parameters and shape)"],
 }
